@@ -34,6 +34,7 @@ EXPLANATION = (
   ' (RAISE-interval) the cue serialisers refuse end <= begin, so add_isd passes an interval on only after a test on the rounded end and begin has excluded an interval that is empty at millisecond resolution (an interval shorter than the time-code resolution is skipped, never an exception);'
   ' (EXC-fallback) in every attribute extractor that reads one raw value, each path on which an error is logged returns what the extractor returns for an absent attribute: a malformed value is ignored, it never turns into another value;'
   " (PAIR-default-end) where the merging filters are not applied unconditionally the writer's finish() gives the default end to every cue that has none, not to the last list entry only;"
+  ' (NUL-htmlattr) in subclasses of HTMLParser the value of an attribute, which is None for an attribute written without a value, is tested against None before it is passed on or dereferenced;'
 )
 RULE_TEXT = "per function / class / dereference / extraction site / raise statement"
 UNDECIDED = ["termination", "RecursionError (input-depth recursion exists in from_xml, dfs_iterator, _process_element)", "TypeError / AssertionError guarded by data-dependent invariants",
@@ -296,4 +297,6 @@ def run(ctx):
   ctx.floor("EXC-fallback", "attribute extractors with an error path", nfb, 6)
   for q_ in ("ttconv.srt.writer:SrtContext", "ttconv.vtt.writer:VttContext"):
     shape.check_default_end(ctx, ctx.ix.cls(q_))
+  nha = nul.check_html_attr_values(ctx, list(ctx.ix.classes.values()))
+  ctx.floor("NUL-htmlattr", "uses of HTML attribute values", nha, 1)
   common.check_history_independence(ctx, MODS)
